@@ -178,6 +178,8 @@ extern "C" int harness_main() {
     for (int r = 0; r < P.nrd; r++) reorders |= P.rd[r][0] < P.rd[r][1];
     if (reorders) verif_reach("rank_dependency_reorders_statements");
     if (P.via_tsl) verif_reach("tsl_structural_source");
+    if (reads_same_twice(P)) verif_reach("same_producer_read_twice");
+    if (P.via_tsl && elements_two_levels_apart(P)) verif_reach("tsl_elements_two_levels_apart");
     if (P.extra == X_REF) verif_reach("ref_pass_through");
     verif_log("nodes", (std::int64_t)gb.nodes().size());
     verif_reach("end");
